@@ -413,10 +413,11 @@ impl MetricsInner {
 
     #[inline]
     fn get(&self, typ: &MetricType) -> u64 {
-        let mut total = 0;
+        let mut total = 0u64;
         if let Some(v) = self.all.get(typ) {
             v.iter()
-                .for_each(|atom| total += atom.load(Ordering::SeqCst));
+                // (the stripes are modular counters: a negative cost is added as its two's complement)
+                .for_each(|atom| total = total.wrapping_add(atom.load(Ordering::SeqCst)));
         }
         total
     }
